@@ -348,6 +348,12 @@ def _nested_if_templates():
             for c3 in conds[:4]:
                 yield ("{% if " + a + " %}1{% else %}{% if " + b + " %}2{% else %}{% if " + c3 + " %}3{% else %}4{% endif %}{% endif %}{% endif %} "
                        "{% if " + c3 + " %}x{% else %}y{% endif %}\n")
+    # an EMPTY if-body in front of the else / elif branch that holds the uncovered code (the tracer's two ways out of the `if` tag
+    # then coincide)
+    for a in conds[:4]:
+        for b in conds[:4]:
+            yield "{% if " + a + " %}{% else %}{% if " + b + " %}A{% endif %}{% endif %}x\n"
+            yield "{% if " + a + " %}{% elif " + b + " %}{% if flag_f %}A{% else %}B{% endif %}{% endif %}from t\n"
 
 
 def rectify_call_sites(tier, seed):
@@ -391,23 +397,38 @@ def _rectify_call_sites(tier, seed, t0):
     cfg = B._cfg()
     tpl = JinjaTemplater(override_context=dict(B.JINJA_CONTEXT))
     not_rendered = 0
+    invalid, n_variants_judged = {}, [0]
     JinjaTemplater._rectify_templated_slices = staticmethod(spy)
     try:
         for s in dict.fromkeys(templates):
             cur[0] = s
             try:
-                list(tpl.process_with_variants(in_str=s, fname="<c07-rectify>", config=cfg))
+                variants = list(tpl.process_with_variants(in_str=s, fname="<c07-rectify>", config=cfg))
             except Exception:
                 not_rendered += 1
+                continue
+            if not B.has_loop(s):
+                # the property itself (contracts.c07.valid, by conjunct) on every variant of a loop-free template of this run
+                for vi, (tf, _errs) in enumerate(variants):
+                    if tf is None:
+                        continue
+                    n_variants_judged[0] += 1
+                    for cname, holds in B.conjuncts(tf):
+                        if not holds:
+                            fid = f"C07/rectify/call-site/valid[{cname}][template-without-loop]"
+                            curv = invalid.get(fid)
+                            if curv is None or (len(s), s) < (len(curv["witness"]), curv["witness"]):
+                                invalid[fid] = dict({"witness": s, "variant": vi, "n_variants": len(variants), "conjunct": cname},
+                                                    **B._describe(tpl, cfg, s, cname))
     finally:
         JinjaTemplater._rectify_templated_slices = real
     stats = {"without-loop": {"calls": 0, "requires_holds": 0, "two_or_more_deltas": 0},
              "with-loop": {"calls": 0, "requires_holds": 0, "two_or_more_deltas": 0}}
-    fails = {}
+    fails, classes = {}, {}
 
     def fail(fid, template, d, sl, res, why):
         curf = fails.get(fid)
-        if curf is None or len(template) < len(curf["template"]):
+        if curf is None or (len(template), template) < (len(curf["template"]), curf["template"]):
             fails[fid] = {"template": template, "why": why, "length_deltas": d,
                           "sliced_template": [(x.slice_type, x.source_slice.start, x.source_slice.stop) for x in sl],
                           "result": None if res is None else [(x.source_slice.start, x.source_slice.stop) for x in res]}
@@ -422,7 +443,15 @@ def _rectify_call_sites(tier, seed, t0):
             pre = False
         if not pre:
             if part == "without-loop":
-                fail("C07/rectify/call-site/requires[template-without-loop]", template, d, sl, res,
+                # which clause of `requires` fails (so that one registered class cannot hide another)
+                if not (all(k >= 0 for k in d) and ordered(sl) and all(x.source_slice.start >= 0 for x in sl)):
+                    why = "slices-not-ordered"
+                elif any(all(x.source_slice.start != k + shift(d, k) for x in sl) for k in d):
+                    why = "overridden-tag-not-traced"       # a key of length_deltas whose tag no slice of the trace starts at
+                else:
+                    why = "other"
+                classes[why] = classes.get(why, 0) + 1
+                fail(f"C07/rectify/call-site/requires[template-without-loop][{why}]", template, d, sl, res,
                      "a real call does not satisfy the precondition under which _rectify_templated_slices is proved")
             continue
         st["requires_holds"] += 1
@@ -435,6 +464,7 @@ def _rectify_call_sites(tier, seed, t0):
             ok, why = False, f"ensures raised {e!r}"
         if not ok:
             fail(f"C07/rectify/call-site/ensures[template-{part}]", template, d, sl, res, why)
+    fails.update(invalid)
     failed = [{"name": fid, "id": fid, "kind": "bounded", "status": "failed", "function": KEY, "detail": dd, "reproduced": True}
               for fid, dd in sorted(fails.items())]
     frac = {k: (round(v["requires_holds"] / v["calls"], 4) if v["calls"] else None) for k, v in stats.items()}
@@ -443,10 +473,11 @@ def _rectify_call_sites(tier, seed, t0):
             "bound": f"{n_tpl} templates: nested / chained if-elif-else over 6 conditions (1-3 overridden tags, deltas of both signs), the "
                      f"deterministic core of contracts/c07_bounded.py and {n_random} seeded templates of its grammar (depth 2-3)",
             "rule": "one evaluation = one real call of JinjaTemplater._rectify_templated_slices observed during process_with_variants; "
-                    "loop-free templates: requires and ensures of contracts/c07_rectify.py must hold; templates with `for`: ensures is "
-                    "judged only where requires holds, the fraction is reported",
+                    "loop-free templates: requires and ensures of contracts/c07_rectify.py must hold, and every variant of the template "
+                    "must satisfy contracts.c07.valid; templates with `for`: ensures is judged only where requires holds, the fraction "
+                    "is reported",
             "evaluations": len(calls), "distinct_nontrivial": stats["without-loop"]["two_or_more_deltas"], "templates": n_tpl,
-            "templates_not_rendered": not_rendered, "calls": stats, "fraction_of_calls_satisfying_requires": frac,
+            "templates_not_rendered": not_rendered, "variants_of_loop_free_templates_judged_by_valid": n_variants_judged[0], "calls": stats, "requires_failure_classes_without_loop": classes, "fraction_of_calls_satisfying_requires": frac,
             "samples": [], "failed": failed, "wall_s": round(time.time() - t0, 2)}
 
 
@@ -471,7 +502,12 @@ TRUSTED = [
     "order not modelled): assumed engine models",
     "the precondition of _rectify_templated_slices (ordered slices; every overridden tag is exactly one slice of the modified "
     "template's trace) is NOT proved of the caller _handle_unreached_code / JinjaTracer: it is checked on every real call made over "
-    "the bounded template grammar (BOUNDED rectify-call-sites; holds on all calls for templates without `for`)",
+    "the bounded template grammar (BOUNDED rectify-call-sites).  For templates without `for` it holds on every observed call except "
+    "one class, a genuine defect of the caller: an `if` / `elif` tag with an EMPTY body in front of the branch that holds the "
+    "uncovered code is overridden with the wrong constant (`options[0] == branch + 1` cannot tell the body from the next tag), the "
+    "variant never reaches the other overridden tags, their deltas stay on the stack and every later slice is mapped to the wrong "
+    "source text (ids C07/rectify/call-site/requires[template-without-loop][overridden-tag-not-traced] and "
+    "C07/rectify/call-site/valid[literal-text-equal][template-without-loop])",
 ]
 NOT_COVERED = [
     "_rectify_templated_slices on templates with `for` loops: the trace revisits slices, the precondition fails on part of the real "
